@@ -176,6 +176,18 @@ def write_cfg(path, spec=None, init=None, next_=None, constants=None, invariants
         f.write("\n".join(lines) + "\n")
 
 
+def split_consts(constants):
+    """cfg files cannot hold tuples/functions: such constants become definitions of a wrapper module."""
+    cfgc, defs = {}, []
+    for k, v in (constants or {}).items():
+        if isinstance(v, (list,)) or (isinstance(v, tuple) and (not v or v[0] != "<-")):
+            defs.append("C_%s == %s" % (k, tla_lit(list(v))))
+            cfgc[k] = ("<-", "C_%s" % k)
+        else:
+            cfgc[k] = v
+    return cfgc, "\n".join(defs)
+
+
 def tla_lit(v):
     if isinstance(v, bool):
         return "TRUE" if v else "FALSE"
